@@ -21,6 +21,7 @@ type ClientServerStream struct {
 
 	serverSend chan any
 	clientSend chan any
+	trailerM   sync.Mutex // guards trailer
 	trailer    metadata.MD
 	closed     context.CancelFunc
 	closeErr   error
@@ -100,6 +101,8 @@ func (c *clientStream) Header() (metadata.MD, error) {
 }
 
 func (c *clientStream) Trailer() metadata.MD {
+	c.trailerM.Lock()
+	defer c.trailerM.Unlock()
 	return c.trailer
 }
 
@@ -179,6 +182,9 @@ func (s *serverStream) SendHeader(md metadata.MD) error {
 }
 
 func (s *serverStream) SetTrailer(md metadata.MD) {
+	s.trailerM.Lock()
+	defer s.trailerM.Unlock()
+	// Join allocates a new map, so a map handed out by Trailer is never written again
 	s.trailer = metadata.Join(s.trailer, md)
 }
 
